@@ -5,6 +5,7 @@ import BeffVerif.Driver.RtOps
 import BeffVerif.Driver.ProgOps
 import BeffVerif.Driver.SchemaOps
 import BeffVerif.Driver.SplitOps
+import BeffVerif.Driver.WatchOps
 /-! Line-protocol driver: one request S-expression per line on stdin, one reply per line on stdout. -/
 open BeffVerif
 
@@ -29,6 +30,7 @@ def handle (req : Sexp) : Sexp :=
   | .list [.atom "describe", _, prog, _, _] => Driver.describeOp prog
   | .list [.atom "total", _, prog, _, _] => Driver.totalOp prog
   | .list [.atom "split", _, p, _, .list vals, proj, _, _, _] => Driver.splitOp p proj vals
+  | .list [.atom "watch", _, files, ops] => Driver.watchOp files ops
   | .list [.atom "loc", .str src, .atom lo, .atom hi] => Driver.locOp src (lo.toNat?.getD 0) (hi.toNat?.getD 0)
   | .list [.atom "schema-ctx", env, .list rts, .str template, container, .list ovs, .list calls, _] =>
     Driver.schemaCtxOp env rts template (match container with | .str k => some k | _ => none) ovs calls
